@@ -130,6 +130,43 @@ pub mod hash_table {
     }
 }
 
+/// Read-only verification hooks; only compiled with `--cfg hashbrown_verif`.
+#[cfg(hashbrown_verif)]
+pub mod verif {
+    pub use crate::control::verif::{verif_group_scan, verif_group_width, VerifGroupScan};
+    pub use crate::raw::verif::VerifDump;
+    use crate::raw::Allocator;
+    use crate::{HashMap, HashSet, HashTable};
+    use alloc::vec::Vec;
+
+    /// Bookkeeping snapshot of a map's table.
+    pub fn dump_map<K, V, S, A: Allocator>(m: &HashMap<K, V, S, A>) -> VerifDump {
+        m.table.verif_dump()
+    }
+    /// Bookkeeping snapshot of a set's table.
+    pub fn dump_set<T, S, A: Allocator>(s: &HashSet<T, S, A>) -> VerifDump {
+        s.map.table.verif_dump()
+    }
+    /// Bookkeeping snapshot of a `HashTable`.
+    pub fn dump_table<T, A: Allocator>(t: &HashTable<T, A>) -> VerifDump {
+        t.raw.verif_dump()
+    }
+    /// `(bucket index, &(key, value))` for every full bucket of a map.
+    pub fn full_buckets_map<K, V, S, A: Allocator>(
+        m: &HashMap<K, V, S, A>,
+    ) -> Vec<(usize, &(K, V))> {
+        m.table.verif_full_buckets()
+    }
+    /// `(bucket index, &element)` for every full bucket of a set.
+    pub fn full_buckets_set<T, S, A: Allocator>(s: &HashSet<T, S, A>) -> Vec<(usize, &(T, ()))> {
+        s.map.table.verif_full_buckets()
+    }
+    /// `(bucket index, &element)` for every full bucket of a `HashTable`.
+    pub fn full_buckets_table<T, A: Allocator>(t: &HashTable<T, A>) -> Vec<(usize, &T)> {
+        t.raw.verif_full_buckets()
+    }
+}
+
 pub use crate::map::HashMap;
 pub use crate::set::HashSet;
 pub use crate::table::HashTable;
